@@ -106,7 +106,8 @@ def run_cons(case, viol, obs):
     extra = None
     if not cyc and not node and rng.random() < 0.25:
         covlen = rng.choice([1.0, 0.6, 0.4]); cov = 1.0
-        lengths = {e: rng.choice([1, 2, 5]) for e in base["edges"] if rng.random() < 0.7}
+        lv = rng.choice([[1, 2, 5], [0.5, 1.5, 2.25], [0.3, 1.7, 2.9]])
+        lengths = {e: rng.choice(lv) for e in base["edges"] if rng.random() < 0.7}
         extra = {e: {"len": l} for e, l in lengths.items()}
         kw["subpath_constraints_coverage_length"] = covlen; kw["length_attr"] = "len"
     else:
@@ -175,6 +176,15 @@ def run_cons(case, viol, obs):
                 ok = any(sum(lengths.get(e, 1) for e in ce if e in set(zip(r, r[1:]))) >= tot * covlen - 1e-9 for r in routes)
         if not ok:
             viol.append({"sig": f"C10/constraint-not-covered-by-a-single-route/{cls}" + ("/node" if node else "") + ("/length" if covlen else ""), "msg": f"constraint {c} (coverage {covlen or cov}) is not contained in any of {routes}; {desc}"})
+    # (a2) cover models: adding (relaxed) constraints must not remove the cover requirement - the returned routes still cover every element
+    if cls in W.COV:
+        obs["c10.cover_models_with_constraints"] += 1
+        used_e = set(); used_n = set()
+        for r in routes:
+            used_n.update(r); used_e.update(zip(r, r[1:]))
+        missing = [v for v in base["nodes"] if v not in used_n] if node else [e for e in base["edges"] if e not in used_e]
+        if missing:
+            viol.append({"sig": f"C10/constraints/{cls}/solution-leaves-elements-uncovered" + ("/node" if node else "") + ("/length" if covlen else ""), "msg": f"not covered: {missing[:5]} by {routes}; {desc}"})
     # (b) exact optimum over the constrained solutions: DAG LAE / MPE, edge mode
     if cls in ("kLeastAbsErrors", "kMinPathError") and not node:
         G = gen.build(inst["spec"])
@@ -214,9 +224,18 @@ def run_ign(case, viol, obs):
     kw0 = kw_for(cls, base, k=max(1, len(base["planted"])) + rng.choice([0, 1]))
     if cls in ("kMinPathError", "kMinPathErrorCycles", "kLeastAbsErrorsCycles") and rng.random() < 0.4:
         kw0["k"] = None         # the model then derives k from the non-ignored part: ignoring and scale 0 must give the same k
+    trusted_variant = False
+    if cls in ("kLeastAbsErrorsCycles", "kMinPathErrorCycles") and not node and rng.random() < 0.5:
+        # the caller trusts a set of edges that includes the element: ignoring it and scaling it by 0 must then agree as well (the trusted
+        # set is the same user assumption in all variants, and an ignored element is documented to drop out of it)
+        trusted_variant = True
+        if rng.random() < 0.5:
+            kw0["trusted_edges_for_safety"] = gen.jl(list(dict.fromkeys([e] + rng.sample(base["edges"], rng.randint(1, len(base["edges"]))))))
+        else:
+            kw0["trusted_edges_for_safety_percentile"] = rng.choice([0, 25, 50])
     variants = {"ignore": (dict(kw0, elements_to_ignore=[ej]), {}, [])}
     big = 97 if base["wt"] == "int" else 97.5
-    if cls not in W.COV:
+    if cls not in W.COV and not trusted_variant:
         variants["ignore+garbage"] = (dict(kw0, elements_to_ignore=[ej]), {e: big}, [])
         variants["ignore+zero"] = (dict(kw0, elements_to_ignore=[ej]), {e: 0}, [])
         variants["ignore+missing"] = (dict(kw0, elements_to_ignore=[ej]), {}, [e])
